@@ -229,7 +229,7 @@ def _evict(limit=int(os.environ.get("VERIF_CACHE_LIMIT_MB", "6000")) * 1024 * 10
 PREBUILD = {
     "quick": [("plain", "c1d0", "vh"), ("asan", "c1d0", "vh"), ("asan", "c1d0", "main"),
               ("plain", "c0d0", "vh"), ("plain", "c2d0", "vh"), ("plain", "c0d1", "vh"),
-              ("plain", "c1d1", "vh"), ("plain", "c2d1", "vh"), ("tsan", "c1d0", "vh"),
+              ("plain", "c1d1", "vh"), ("plain", "c2d1", "vh"), ("tsan", "c1d0", "vh"), ("asanassert", "c1d0", "vh"),
               ("vg", "c1d0", "main")],
 }
 
